@@ -10,7 +10,7 @@ import petl as etl
 from hypothesis import strategies as st
 
 from pv import gen, codec
-from pv.core import Sub, Fail, exc_fail
+from pv.core import two_iterators, Sub, Fail, exc_fail
 
 ID = "C15"
 LEVEL = "exploration"
@@ -94,7 +94,8 @@ def csv_case(draw, tier):
     nappend = draw(st.sampled_from([0, 0, 1, 2]))
     c = {"encoding": enc, "quoting": quoting, "table": t1, "appends": [[draw(hdrs)] + draw(rows) for _ in range(nappend)],
          "tsv": draw(st.booleans()), "kind": draw(st.sampled_from(KINDS)), "prior": draw(st.booleans()), "write_header": draw(st.sampled_from([True, False, None])),
-         "append_header": draw(st.sampled_from([True, False, None])), "read_header": draw(st.sampled_from([None, None, ["h1", "h2"]]))}
+         "append_header": draw(st.sampled_from([True, False, None])), "read_header": draw(st.sampled_from([None, None, ["h1", "h2"]])),
+         "readmode": draw(st.sampled_from(["single", "single", "lagging", "len-first"])), "lag": draw(st.integers(0, 3))}
     if not c["tsv"] or draw(st.booleans()):
         c["delimiter"] = draw(st.sampled_from([",", ";", "\t", "|", " "]))
     if draw(st.booleans()):
@@ -171,10 +172,24 @@ def check_csv(case, ctx):
         rkw = dict(kw)
         if case["read_header"]:
             rkw["header"] = case["read_header"]
-        got = [tuple(r) for r in fromfn(_reader(kind, target), encoding=enc, **rkw)]
+        back = fromfn(_reader(kind, target), encoding=enc, **rkw)
+        rm = case.get("readmode", "single")
+        nlen = None
+        if rm == "len-first":
+            nlen = len(back)
+        if rm == "lagging":
+            # read back through two live iterators (one running ahead): one reader object, two passes at once
+            got, got_b = two_iterators(back, lag=case.get("lag", 1))
+        else:
+            got = got_b = [tuple(r) for r in back]
+        ctx.label("read:" + rm)
     except Exception as ex:
         return exc_fail("csv/%s" % kind, ex)
     expected = ([tuple(case["read_header"])] if case["read_header"] else []) + exp
+    if nlen is not None and nlen != len(got):
+        return Fail("csv/%s/len" % kind, "len() of the table read back is %d, a pass delivers %d rows" % (nlen, len(got)))
+    if got_b != got:
+        return Fail("csv/%s/second-reader" % kind, "two live iterators over the table read back gave %r and %r" % (got, got_b))
     if got != expected:
         return Fail("csv/%s/rows" % kind, "wrote %r (+%r) with %r encoding=%s header flags %r/%r to %s; read back %r, expected %r"
                     % (t1, appends, kw, enc, wh, ah, kind, got, expected))
@@ -203,7 +218,8 @@ def pickle_case(draw, tier):
     return {"table": [draw(hdrs)] + draw(rows), "appends": [[draw(hdrs)] + draw(rows) for _ in range(draw(st.sampled_from([0, 1, 2])))],
             "kind": draw(st.sampled_from(KINDS)), "prior": draw(st.booleans()), "write_header": draw(st.sampled_from([True, False, None])),
             "append_header": draw(st.sampled_from([True, False, None])),
-            "protocol": draw(st.sampled_from([-1, 0, 2, 4])), "rowtype": draw(st.sampled_from(["list", "tuple"]))}
+            "protocol": draw(st.sampled_from([-1, 0, 2, 4])), "rowtype": draw(st.sampled_from(["list", "tuple"])),
+            "readmode": draw(st.sampled_from(["single", "single", "lagging"])), "lag": draw(st.integers(0, 3))}
 
 
 def check_pickle(case, ctx):
@@ -223,9 +239,17 @@ def check_pickle(case, ctx):
         etl.topickle([conv(r) for r in codec.snapshot(t1)], target, protocol=case["protocol"], **whkw)
         for t in appends:
             etl.appendpickle([conv(r) for r in codec.snapshot(t)], target, protocol=case["protocol"], **ahkw)
-        got = [r for r in etl.frompickle(_reader(kind, target))]
+        back = etl.frompickle(_reader(kind, target))
+        rm = case.get("readmode", "single")
+        if rm == "lagging":
+            got, got_b = two_iterators(back, lag=case.get("lag", 1), norm=lambda r: r)
+        else:
+            got = got_b = [r for r in back]
+        ctx.label("read:" + rm)
     except Exception as ex:
         return exc_fail("pickle/%s" % kind, ex)
+    if not codec.strict_eq(got_b, got):
+        return Fail("pickle/%s/second-reader" % kind, "two live iterators over the table read back gave %r and %r" % (got, got_b))
     if not codec.strict_eq(got, exp):
         return Fail("pickle/%s/rows" % kind, "wrote %r (+%r) flags %r/%r; read back %r expected %r" % (t1, appends, wh, ah, got, exp))
     if appends:
